@@ -1,4 +1,8 @@
 """S-expression codec matching lean/ZCV/SExp.lean"""
+import re
+
+_PLAIN = re.compile(r'[ !#-\[\]-~]*\Z')      # printable ASCII without '"' and '\\': written as is
+_STR_RX = re.compile(r'"([^"\\]*)"')          # a string literal without escapes
 
 
 class Atom(str):
@@ -15,6 +19,8 @@ def enc(x):
     if isinstance(x, int):
         return str(x)
     if isinstance(x, str):
+        if _PLAIN.match(x):
+            return '"' + x + '"'
         out = ['"']
         for c in x:
             o = ord(c)
@@ -53,6 +59,9 @@ def _one(s, i):
             v, i = _one(s, i)
             xs.append(v)
     if s[i] == '"':
+        m = _STR_RX.match(s, i)
+        if m:
+            return m.group(1), m.end()
         i += 1
         out = []
         while s[i] != '"':
